@@ -42,6 +42,9 @@ IP_PMTUDISC_DO = 2  # Always DF
 IP_PMTUDISC_PROBE = 3  # DF and ignore MTU
 
 ''' Delay in milliseconds '''
+RX_XFER_TIMEOUT_MS = 60000
+''' How long an incomplete received transfer is kept after its latest segment '''
+
 ECN_NOECT = 0x00
 ECN_ECT1 = 0x01
 ECN_ECT0 = 0x02
@@ -109,6 +112,8 @@ class Transfer(object):
     valid: Optional[portion.Interval] = None
     # Accumulated byte string
     data: Optional[bytearray] = None
+    # Timer source which discards the transfer when it stays incomplete
+    timeout_id: Optional[int] = None
 
     @property
     def key(self):
@@ -1151,6 +1156,10 @@ class Agent(dbus.service.Object):
             xfer.data[frag_offset:end_ix] = frag_data
 
             xfer.valid |= portion.closedopen(frag_offset, end_ix)
+            # the rest is waited for only so long, counted from the latest segment
+            if xfer.timeout_id is not None:
+                glib.source_remove(xfer.timeout_id)
+                xfer.timeout_id = None
             if xfer.valid == xfer.total_valid:
                 self.__logger.info('Finished transfer %d size %d', xfer.xfer_id, xfer.total_length)
                 del self._rx_fragments[xfer.key]
@@ -1162,6 +1171,8 @@ class Agent(dbus.service.Object):
                         file=BytesIO(xfer.data)
                     )
                 )
+            else:
+                xfer.timeout_id = glib.timeout_add(RX_XFER_TIMEOUT_MS, self._rx_fragments_expire, xfer.key)
 
         if ExtensionKey.ECN_COUNTS in extmap:
             self._ecn_counts_recv(conv, extmap[ExtensionKey.ECN_COUNTS])
@@ -1169,6 +1180,15 @@ class Agent(dbus.service.Object):
             self._pmtud_recv_probe(conv, extmap[ExtensionKey.PEER_PROBE])
         if ExtensionKey.PEER_CONFIRM in extmap:
             self._pmtud_recv_confirm(conv, extmap[ExtensionKey.PEER_CONFIRM])
+
+    def _rx_fragments_expire(self, key):
+        ''' Discard a received transfer which was never completed.
+        '''
+        xfer = self._rx_fragments.pop(key, None)
+        if xfer is not None:
+            self.__logger.info('Discarding incomplete transfer %d', xfer.xfer_id)
+            xfer.timeout_id = None
+        return False
 
     def _add_rx_item(self, item: BundleItem):
         ''' Add a recevied bundle.
